@@ -57,9 +57,13 @@ def front_call(case, ro):
     series = data if isinstance(data, list) else [data]
     W = case["W"]
     N = int(np.asarray(series[0]).shape[1])
+    if case.get("oned"):
+        N = 1
     npts = sum(max(0, np.asarray(s).shape[0] - W + 1) for s in series)
     beta = wd.make_beta(case["beta"], npts)
     lam = wd.make_lambda(case["lam"], N * W) if not case.get("bad_lambda_shape") else np.full((N * W + 1, N * W + 1), 0.1)
+    if case.get("oned") and isinstance(data, np.ndarray):
+        data = np.array(data[:, 0], copy=True)          # a univariate series given as a 1-D array
     if ro:
         data, beta, lam = readonly(data), readonly(beta), readonly(lam)
     args = {"data": data, "beta": beta, "lam": lam}
@@ -113,10 +117,10 @@ def run_front(spec, res):
         fl = ["plain", "fortran", "float32", "int", "strided"][int(rng.integers(0, 5))]
         case["data"]["flavor"] = fl
         if rng.random() < 0.6:
-            case["lam"] = dict(form=["matrix_const", "matrix_rand"][int(rng.integers(0, 2))], value=0.3, seed=int(rng.integers(0, 999)))
+            case["lam"] = dict(form=["matrix_const", "matrix_rand", "matrix_const_be"][int(rng.integers(0, 3))], value=0.3, seed=int(rng.integers(0, 999)))
         if rng.random() < 0.6:
             case["beta"] = dict(form=["vector_const", "vector_rand"][int(rng.integers(0, 2))], value=5.0, seed=int(rng.integers(0, 999)))
-        fail = [None, None, "task", "bad_lambda_shape", "short", "swap"][int(rng.integers(0, 6))]
+        fail = [None, None, "task", "bad_lambda_shape", "short", "swap", "oned"][int(rng.integers(0, 7))]
         if fail == "task":
             case["task_plan"] = {str(int(rng.integers(0, case["K"]))): {"raise_": ("ValueError", "injected")}}
         elif fail == "bad_lambda_shape":
@@ -128,6 +132,8 @@ def run_front(spec, res):
                 case["data"]["T"] = max(1, case["W"] - 1)
         elif fail == "swap":
             case["swap"] = True
+        elif fail == "oned" and not joint:
+            case["oned"] = True
         case["what"] = "front"
         case["fail"] = fail
         check_front(res, case)
